@@ -42,7 +42,7 @@ def gen(r, tier, i):
     n = r.randint(1, 3)
     procs = []
     for pid in range(n):
-        procs.append({'pid': pid, 'ts': r.choice(TS),
+        procs.append({'pid': pid, 'ts': r.choice(TS), 'bflag': r.random() < 0.5,
                       'emit': {v: r.random() < 0.6 for v in ('a', 'b', 'q', 'q2', 'qser', 'ser', 'falsy')}})
     overrides = []
     for pid in range(n):
@@ -137,6 +137,10 @@ def build(spec, emit_step):
                       'qser': {'_default': 2.0 * units.fg, '_emit': em['qser'], '_serializer': 'vmon_tag'},
                       'falsy': {'_default': 3, '_emit': em['falsy'], '_updater': 'set'}},
                 'shared': {'n': {'_default': 0, '_emit': True}, 'hidden': {'_default': 0, '_emit': False}},
+                # a branch-level flag in the ports schema itself (the store is created by this declaration);
+                # v carries a flag of its own
+                'B': {'_emit': bool(self.parameters.get('bflag')), 'u': {'_default': 0},
+                      'v': {'_default': 1, '_emit': not self.parameters.get('bflag')}},
             }
 
         def calculate_timestep(self, states):
@@ -145,7 +149,7 @@ def build(spec, emit_step):
         def next_update(self, timestep, states):
             k = states['S']['a']
             return {'S': {'a': 1, 'b': 0.5, 'q': 0.001 * units.pg, 'ser': 2, 'falsy': FALSY[k % len(FALSY)]},
-                    'shared': {'n': 1, 'hidden': 1}}
+                    'shared': {'n': 1, 'hidden': 1}, 'B': {'u': 1}}
 
     class SumStep(Step):
         def ports_schema(self):
@@ -217,8 +221,8 @@ def build(spec, emit_step):
     topology = {}
     for p in spec['procs']:
         name = 'p%d' % p['pid']
-        processes[name] = EmitProc({'ts': p['ts'], 'emit': p['emit']})
-        topology[name] = {'S': ('st', name), 'shared': ('shared',)}
+        processes[name] = EmitProc({'ts': p['ts'], 'emit': p['emit'], 'bflag': p.get('bflag', True)})
+        topology[name] = {'S': ('st', name), 'shared': ('shared',), 'B': ('stb', name)}
     processes['dir'] = Director({'script': spec['script'], 'timestep': 1.0})
     processes['deepp'] = Deep({})
     topology['deepp'] = {'D': ('deep', 'blob'), 'E': ('deep',)}
@@ -247,6 +251,9 @@ def flags(spec):
         name = 'p%d' % p['pid']
         for v, on in p['emit'].items():
             f[('st', name, v)] = on
+    for p in spec['procs']:
+        f[('stb', 'p%d' % p['pid'], 'u')] = bool(p.get('bflag', True))
+        f[('stb', 'p%d' % p['pid'], 'v')] = not p.get('bflag', True)
     f[('shared', 'n')] = True
     f[('shared', 'hidden')] = False
     f[('out', 'sum')] = spec['emit_sum']
@@ -272,7 +279,7 @@ def expected_row(spec, snap, fl):
             node = node.setdefault(k, {})
         node[path[-1]] = value
     # branches always appear
-    for b in (('st',), ('shared',), ('out',), ('cells',), ('cells2',), ('deep',)):
+    for b in (('st',), ('stb',), ('shared',), ('out',), ('cells',), ('cells2',), ('deep',)):
         if not snap.get(b[0]):
             continue        # a store without children emits nothing
         node = out
@@ -280,6 +287,7 @@ def expected_row(spec, snap, fl):
             node = node.setdefault(k, {})
     for p in spec['procs']:
         out['st'].setdefault('p%d' % p['pid'], {})
+        out['stb'].setdefault('p%d' % p['pid'], {})
     for path, v in flat(snap).items():
         if not path:
             continue
